@@ -24,6 +24,16 @@ class CSVSearchRecorder(SearchRecorder):
         assert csv_path is not None
         self.csv_file = open(csv_path, "w", newline="")
         self.csv_writer = csv.writer(self.csv_file)
+        self.header_printed = False
+        self.only_record_best_individuals = only_record_best_individuals
+        self.configuration = (fields, extra_fields)
+        # the standard columns need the number of objectives, which a problem declared with minimize=<bool> only learns
+        # from its first evaluation: the header is then written just before the first row
+        if fields is not None or getattr(problem, "n_objectives", 1) is not None:
+            self.print_header(problem)
+
+    def print_header(self, problem: Problem):
+        fields, extra_fields = self.configuration
         if fields is not None:
             self.fields = dict(fields)  # a copy: the caller's dict may configure several recorders
         else:
@@ -38,10 +48,11 @@ class CSVSearchRecorder(SearchRecorder):
                 self.fields[name] = extra_fields[name]
         self.csv_writer.writerow([name for name in self.fields])
         self.csv_file.flush()
-        self.header_printed = False
-        self.only_record_best_individuals = only_record_best_individuals
+        self.header_printed = True
 
     def register(self, tracker: Any, individual: Individual, problem: Problem, is_best=False):
+        if not self.header_printed:
+            self.print_header(problem)
         if not self.only_record_best_individuals or is_best:
             self.csv_writer.writerow(
                 [self.fields[name](tracker, individual, problem) for name in self.fields],
